@@ -116,11 +116,22 @@ Definition top_list (bs : bytes) : option (list item) :=
 Definition elem_int (l : list item) (i : nat) : option N :=
   match nth_error l i with Some (Str b) => Some (of_be b) | _ => None end.
 
-(* does the table hold a signature check of (r,s) over [digest] that yields [addr]? *)
-Definition orc_confirms (orc : list oentry) (digest : bytes) (r s : N) (addr : bytes) : bool :=
-  existsb (fun e => let '(d, _, r', s', a) := e in
+(* does the table hold a recovery of (r,s) over [digest] — with the given normalised V when [vB] is
+   Some — that yields [addr]? *)
+Definition orc_confirms (orc : list oentry) (digest : bytes) (vB : option N) (r s : N) (addr : bytes) : bool :=
+  existsb (fun e => let '(d, v', r', s', a) := e in
              (r =? lit_N r')%N && (s =? lit_N s')%N && bytes_eqb digest (bexpand d) &&
+             match vB with Some v => (v =? v')%N | None => true end &&
              match a with Some x => bytes_eqb (bexpand x) addr | None => false end) orc.
+
+(* the format and recovery id that the V written in a legacy transaction denotes (EIP-155; the integer
+   is taken modulo 2^64, which is what the implementation's Int64() conversion does — see the notes):
+   Some (false, vB) original format, Some (true, vB) EIP-155 for [chain], None = no legitimate V *)
+Definition legacy_v_denotes (V : N) (chain : Z) : option (bool * N) :=
+  let v := (Z.of_N V mod 2 ^ 64)%Z in
+  if (v =? 27)%Z || (v =? 28)%Z then Some (false, Z.to_N v)
+  else let w := ((v - 35 - 2 * chain) mod 2 ^ 64)%Z in
+       if (w =? 0)%Z || (w =? 1)%Z then Some (true, Z.to_N (27 + w)) else None.
 
 (* result codes: 0 agree; 1..9 model <> implementation; >= 10 implementation fails a property oracle *)
 Definition compare_model (m : res recovered) (cls : nat) (addr : bytes) (ot : otx) (pl : bytes) : N :=
@@ -166,19 +177,35 @@ Definition check_case (c : case) : N :=
           (* DecodeEIP1559SignaturePayload: the decoded payload is the input's own first nine elements *)
           if bytes_eqb (x02 :: encode (Lst (firstn 9 l))) (spec_preimage Eip1559 f chainN) then 0%N else 11%N
         else
-          (* the returned payload is the specification preimage of the returned fields *)
-          (* EIP-155 chain ids are non-negative: for a negative chain id there is no specification
-             preimage to compare the EIP-155 form with (totality and the signature oracle still apply) *)
-          let pre_ok := if typed then bytes_eqb pl (spec_preimage Eip1559 f chainN)
-                        else bytes_eqb pl (spec_preimage Original f chainN) ||
-                             bytes_eqb pl (spec_preimage Eip155 f chainN) || (chain <? 0)%Z in
-          if negb pre_ok then 11%N
+          if typed then
+            (* the returned payload is the specification preimage of the returned fields *)
+            if negb (bytes_eqb pl (spec_preimage Eip1559 f chainN)) then 11%N
+            else
+              (* the (r,s) of the input verify over keccak256(returned payload) for the returned address;
+                 when V is a plain y-parity the address is the one that parity selects *)
+              let vB := match elem_int l 9 with
+                        | Some 0%N => Some 27%N | Some 1%N => Some 28%N | _ => None end in
+              match elem_int l 10, elem_int l 11 with
+              | Some r, Some s => if orc_confirms orc digest vB r s a then 0%N else 13%N
+              | _, _ => 13%N
+              end
           else
-            (* the (r,s) of the input verify over keccak256(returned payload) for the returned address *)
-            let ri := if typed then 10%nat else 7%nat in
-            match elem_int l ri, elem_int l (S ri) with
-            | Some r, Some s => if orc_confirms orc digest r s a then 0%N else 13%N
-            | _, _ => 13%N
+            match elem_int l 6 with
+            | None => 14%N
+            | Some V =>
+              match legacy_v_denotes V chain with
+              | None => 14%N                      (* accepted a V that denotes neither format *)
+              | Some (is155, vB) =>
+                (* EIP-155 chain ids are non-negative: for a negative chain id there is no
+                   specification preimage to compare the EIP-155 form with *)
+                let pre_ok := if is155 then bytes_eqb pl (spec_preimage Eip155 f chainN) || (chain <? 0)%Z
+                              else bytes_eqb pl (spec_preimage Original f chainN) in
+                if negb pre_ok then 11%N
+                else match elem_int l 7, elem_int l 8 with
+                     | Some r, Some s => if orc_confirms orc digest (Some vB) r s a then 0%N else 13%N
+                     | _, _ => 13%N
+                     end
+              end
             end
       end in
     if negb (oracle =? 0)%N then oracle
